@@ -56,3 +56,11 @@ check("C09",
       "supplied dialects must be reported verbatim.",
       TB + "Importer routing is observed through a GTF marker line beyond the window.",
       "TLA+ spec (Dialect on AttrSyntax) + TLC alg-vs-decl check over all small windows + spec-generated windows replayed on the code (JSON equality)")
+
+check("C02",
+      "GffDB.tla models the importer as a fold of ImportLine (DeriveId -> Insert | Collide -> level-1 links) followed by CloseLevel2, and states C02 declaratively "
+      "(Rel1/Rel2 of the Parent graph of what is stored). TLC checks rels = Rel1 u Rel2, inverse parents/children, no self relative, no phantom, level semantics for "
+      "every Parent graph on 4 features x every permutation of the lines (order independence is a checked theorem) and prints each file with the expected relation "
+      "table and every children/parents answer. Each file is imported by the code and all answers compared; random forests up to 60 features go through the same "
+      "model (Gen_DB) and are compared row by row.",
+      TB, "TLA+ state-machine spec (GffDB) + TLC exhaustive graphs x line orders + spec-generated files replayed on the code + model trajectories for random forests (Gen_DB)")
